@@ -92,6 +92,7 @@ func (i *Interpreter) Interpret(statements []ast.Stmt, isRepl bool) []interface{
 
 func (i *Interpreter) eval(expr ast.Expr, env *environment.Environment, isRepl bool) (interface{}, *ControlFlowSignal) {
 	// fmt.Printf("%T\n", expr)
+	utils.VerifEmit("eval", expr)
 	switch e := expr.(type) {
 	case *ast.PropertyAssignment:
 		objectValue, signal := i.eval(e.Object, env, isRepl)
@@ -287,6 +288,7 @@ func (i *Interpreter) eval(expr ast.Expr, env *environment.Environment, isRepl b
 		}
 
 		// Step 3: Call the function and return its result
+		utils.VerifEmit("call", function, arguments)
 		result, err := function.Call(i, arguments)
 		if err != nil {
 			utils.RuntimeError(e.Paren, "Function call failed: "+err.Error())
